@@ -23,6 +23,32 @@ var textAlphabet = [][]byte{
 	[]byte("\x7f"), []byte("\x1b"),
 }
 
+// nearMarker draws three bytes that are almost a marker: one or two of its
+// bytes have their top bits changed (the low six bits are what a decoder
+// that does not validate continuation bytes looks at), are off by one, or
+// are replaced by an ASCII byte with the same low six bits. Never a real
+// marker, never a NUL.
+func nearMarker(rt *rapid.T, label string) []byte {
+	m := []byte(startS)
+	if rapid.Bool().Draw(rt, label+"_nm_end") {
+		m = []byte(endS)
+	}
+	m = append([]byte(nil), m...)
+	nmut := rapid.IntRange(1, 2).Draw(rt, label+"_nm_n")
+	for i := 0; i < nmut; i++ {
+		pos := rapid.IntRange(0, 2).Draw(rt, label+"_nm_pos")
+		x := []byte{0x40, 0x80, 0xC0, 0x01, 0x02, 0x10, 0x20}[rapid.IntRange(0, 6).Draw(rt, label+"_nm_x")]
+		m[pos] ^= x
+		if m[pos] == 0 {
+			m[pos] = 0x40
+		}
+	}
+	if string(m) == startS || string(m) == endS {
+		m[2] ^= 0x40
+	}
+	return m
+}
+
 // genText draws a valid-UTF-8 payload over the text alphabet, with markers
 // and line feeds likely at the boundaries.
 func genText(rt *rapid.T, label string, maxTok int) []byte {
@@ -42,7 +68,17 @@ func genOver(rt *rapid.T, label string, maxTok int, alpha [][]byte) []byte {
 	n := rapid.IntRange(0, maxTok).Draw(rt, label+"_n")
 	mode := rapid.IntRange(0, 399).Draw(rt, label+"_long")
 	out := []byte{}
-	tok := func() []byte { return alpha[rapid.IntRange(0, len(alpha)-1).Draw(rt, label+"_t")] }
+	extra := 0
+	if len(alpha) == len(byteAlphabet) && &alpha[0] == &byteAlphabet[0] {
+		extra = 1 // one more slot of the byte alphabet: a marker with one or two bytes altered
+	}
+	tok := func() []byte {
+		k := rapid.IntRange(0, len(alpha)-1+extra).Draw(rt, label+"_t")
+		if k == len(alpha) {
+			return nearMarker(rt, label)
+		}
+		return alpha[k]
+	}
 	switch {
 	case mode <= 12:
 		// a long payload of random tokens: crosses the buffers' initial
@@ -205,6 +241,8 @@ func genOpOfKind(rt *rapid.T, cfg *opConfig, k string) *Op {
 	case "Printf":
 		if cfg.args != nil {
 			op.Args = cfg.args(rt, "pfa")
+		} else if rapid.IntRange(0, 4).Draw(rt, "pf0") == 0 {
+			op.Args = nil // a format with no operands is still a format: "%%", reports
 		} else {
 			op.Args = []*Val{{K: "str", S: genPayload(rt, cfg, "pfs")}}
 		}
@@ -250,6 +288,12 @@ func genSimpleFormat(rt *rapid.T, label string, nargs int, bytesAlpha bool) []by
 	case 7:
 		// an argument index that does not exist: a BADINDEX report
 		out = append(out, "%[9]v"...)
+	case 9:
+		out = append(out, "%%"...)
+		lit()
+	case 10:
+		// a lone '%' at the very end: a NOVERB report
+		out = append(out, '%')
 	}
 	// '%' inside literals would consume operands; that is fine (chaotic), but
 	// keep literals free of '%' so that the binding stays simple
@@ -342,7 +386,12 @@ func genBulkOp(rt *rapid.T, cfg *opConfig, label string) *Op {
 	if cfg.bytesAlpha {
 		alpha = byteAlphabet
 	}
-	tok := func() []byte { return alpha[rapid.IntRange(0, len(alpha)-1).Draw(rt, label+"_bt")] }
+	tok := func() []byte {
+		if cfg.bytesAlpha && rapid.IntRange(0, len(alpha)).Draw(rt, label+"_bnm") == 0 {
+			return nearMarker(rt, label)
+		}
+		return alpha[rapid.IntRange(0, len(alpha)-1).Draw(rt, label+"_bt")]
+	}
 	size := sizeThresholds[rapid.IntRange(0, len(sizeThresholds)-1).Draw(rt, label+"_bsize")] + rapid.IntRange(-3, 3).Draw(rt, label+"_bd")
 	var out []byte
 	out = append(out, tok()...)
